@@ -27,7 +27,10 @@ def main(argv):
                            trace=traceback.format_exc()), f)
         return 3
     mod = importlib.import_module("dynmon.props." + prop.lower())
-    ctx = Ctx(prop, tier, seed, shard, nshards, mod.BUDGET[tier])
+    # DYNMON_BUDGET: CPU seconds for this shard (used by tools/automut.py for its short screening runs; the
+    # registered checks never set it)
+    budget = float(os.environ.get("DYNMON_BUDGET") or mod.BUDGET[tier])
+    ctx = Ctx(prop, tier, seed, shard, nshards, budget)
     try:
         mod.run(ctx, dn)
     except Exception as ex:
